@@ -8,6 +8,8 @@ CHECKS = {
             "thorough": {"runs": 400000, "chunk": 64}},
     "C17": {"module": "sim.c17", "quick": {"runs": 6000, "chunk": 32},
             "thorough": {"runs": 400000, "chunk": 64}},
+    "C20": {"module": "sim.c20", "post": True, "quick": {"runs": 3000, "chunk": 16},
+            "thorough": {"runs": 200000, "chunk": 32}},
     "C16": {"module": "sim.c16", "quick": {"runs": 2400, "chunk": 8},
             "thorough": {"runs": 80000, "chunk": 8}},
 }
